@@ -147,6 +147,10 @@ func c18Pairs(tier string) []c18pair {
 		func(a, b cells.Cell) *drv.DiffPayload {
 			return &drv.DiffPayload{Mode: "response", Resp: respPayload(a.Spec, "C18", a.ID)}
 		})
+	group(cells.OneOfOrderCells(), "form", "inline", func(c cells.Cell) bool { return true },
+		func(a, b cells.Cell) *drv.DiffPayload {
+			return &drv.DiffPayload{Mode: "json", Spec: a.Spec, Type: "Top"}
+		})
 	// responses: schema form, response form, header form
 	for _, axis := range [][2]string{{"form", "inline"}, {"rform", "inline"}} {
 		group(cells.SchemaCells(), axis[0], axis[1], func(c cells.Cell) bool { return c.Attrs["pos"] == "respbody" && quickKind(c) && c.Attrs["null"] == "0" },
